@@ -68,6 +68,7 @@ import "github.com/gopacket/gopacket"
 //@   ensures result == nil ==> udp.BaseLayer.Contents.arr == data.arr && udp.BaseLayer.Contents.off == data.off && len(udp.BaseLayer.Contents) == 8
 //@   ensures result == nil && udp.Length >= 8 && udp.Length <= len(data) ==> udp.BaseLayer.Payload.arr == data.arr && udp.BaseLayer.Payload.off == data.off + 8 && len(udp.BaseLayer.Payload) == udp.Length - 8
 //@   ensures len(data) >= 8 && be16(data, 4) >= 8 ==> result == nil
+//@   ensures result == nil ==> len(udp.BaseLayer.Payload) <= len(data) - 8
 
 // Round trip (C06): a UDP header written with FixLengths over a payload of at most 65527 bytes decodes without
 // error to the same ports, length and checksum, and to exactly the payload that was in the buffer.
@@ -114,6 +115,7 @@ func verifLemmaRoundTripUDP(u *UDP, b gopacket.SerializeBuffer, cs bool, df gopa
 //@   ensures result == nil ==> eth.SrcMAC.arr == data.arr && eth.SrcMAC.off == data.off + 6 && len(eth.SrcMAC) == 6
 //@   ensures result == nil && be16(data, 12) >= 1536 ==> eth.EthernetType == be16(data, 12) && eth.Length == 0
 //@   ensures result == nil && be16(data, 12) >= 1536 ==> eth.BaseLayer.Payload.arr == data.arr && eth.BaseLayer.Payload.off == data.off + 14 && len(eth.BaseLayer.Payload) == len(data) - 14
+//@   ensures result == nil ==> len(eth.BaseLayer.Payload) <= len(data) - 14
 
 // Round trip (C06): an Ethernet II header (type >= 0x0600) over a payload of at least 46 bytes decodes to the same
 // addresses, type and payload window.
